@@ -79,6 +79,11 @@ func zzAnyPtr(v any) *any { return &v }
 // presence/kind combinations; here the point is attachment and wiring).
 func zzNumericShape(t *schemas.Type, s *zzSpec) {
 	f := func() *float64 { v := zzvrt.Float64(); return &v }
+	if zzvrt.Param("BOUNDCONST", 0) == 1 {
+		// stated bounds whose decimal text needs many digits, an exponent, or both
+		consts := []float64{0.1234564, 1e-7, -2.5e-6, 1e21, 123456789.125, 0.30000000000000004}
+		f = func() *float64 { v := consts[zzvrt.Choice(len(consts))]; return &v }
+	}
 	shape := 0
 	if m := zzvrt.Param("NUMSHAPEMASK", 0); m != 0 {
 		// only the shapes whose bit is set
@@ -361,9 +366,13 @@ func zzGen(mask int, depth int, allowNullable bool) (*schemas.Type, *zzSpec) {
 			s.hasDefault, s.defB = true, true
 			t.Default = true
 		case "any":
-			// untyped property (interface{} field) whose default is a Go zero value
+			// untyped property (interface{} field) whose default is a Go zero value, or a number
+			// with a fractional part
 			s.hasDefault, s.defF = true, 0
-			t.Default = 0.0
+			if zzvrt.Bool() {
+				s.defF = 2.5
+			}
+			t.Default = s.defF
 		case "enum-string":
 			s.hasDefault, s.defS = true, s.enumS[1]
 			t.Default = s.enumS[1]
